@@ -7,7 +7,7 @@ set -u
 patch="$1"; tier="$2"; shift 2
 cd "$(dirname "$0")/.."
 if [ -n "$(git -C /repo status --porcelain)" ]; then echo "/repo is not clean"; exit 2; fi
-restore() { git -C /repo checkout -- . ; git -C /repo clean -fdq; git checkout -q -- evidence 2>/dev/null; }
+restore() { git -C /repo checkout -- . ; git -C /repo clean -fdq; git checkout -q -- evidence lean/Gen 2>/dev/null; }
 trap restore EXIT INT TERM
 if ! git -C /repo apply "$patch"; then echo "patch does not apply"; exit 2; fi
 for p in "$@"; do
